@@ -96,7 +96,7 @@ def check(ctx, rep):
             for bb, info in se.term_info.items():
                 if info.get("k") == "call" and info["name"] == sink:
                     a = canon(ctx, se, info["args"][argi])
-                    good = util.is_call(a, src)
+                    good = _is_draw(a, src)
             rep.check(good, "use-site", fn, what, "%s receives %s()" % (sink, src), "%s does not feed a fresh %s() into %s" % (fn, src, sink), se.body.loc())
         # into_server: challenge; client new: a (both uses the same draw); reconnect values
         se = ctx.wrap.run("server::SrpProof::into_server")
@@ -104,13 +104,13 @@ def check(ctx, rep):
         if se is not None:
             for (bi, si), (loc, v) in se.assigns.items():
                 if v[0] == "agg" and v[2] == "server::SrpServer":
-                    good = any(util.is_call(canon(ctx, se, o), "key::ReconnectData::randomized") for o in v[4])
+                    good = any(_is_draw(canon(ctx, se, o), "key::ReconnectData::randomized") for o in v[4])
         rep.check(good, "use-site", "server::SrpProof::into_server", "initial server challenge", "SrpServer is created with ReconnectData::randomized()", "the new session's reconnect challenge is not a fresh ReconnectData::randomized()")
         se = ctx.api.run("client::SrpClientChallenge::new")
         good = False
         if se is not None:
             r = strip(se.ret)
-            draws = {t for t in walk(r) if util.is_call(t, "key::PrivateKey::randomized")}
+            draws = {t for t in walk(r) if _is_draw(t, "key::PrivateKey::randomized")}
             apub = [t for t in walk(r) if util.is_call(t, "srp_internal_client::calculate_client_public_key")]
             cs = [t for t in walk(r) if util.is_call(t, "srp_internal_client::calculate_client_S")]
             good = len(draws) == 1 and apub and cs and all(strip(t[2][0]) in draws for t in apub) and all(strip(t[2][2]) in draws for t in cs)
@@ -128,7 +128,7 @@ def check(ctx, rep):
         se = ctx.wrap.run("client::SrpClient::calculate_reconnect_values")
         good = False
         if se is not None and se.ret[0] == "agg":
-            good = any(util.is_call(canon(ctx, se, o), "key::ReconnectData::randomized") for o in se.ret[4])
+            good = any(_is_draw(canon(ctx, se, o), "key::ReconnectData::randomized") for o in se.ret[4])
         rep.check(good, "use-site", "client::SrpClient::calculate_reconnect_values", "client challenge", "the challenge sent is ReconnectData::randomized()", "client challenge is not a fresh ReconnectData::randomized()")
     for mod, feat in SEEDS:
         if feat and feat not in F:
@@ -154,6 +154,13 @@ def check(ctx, rep):
                     bad.append("%s.%s: %s" % (a["path"], f["name"], ts))
     rep.check(not bad, "no-cache", "crate", "interior-mutability", "no interior-mutability field in any crate type", "interior-mutability fields: %s" % bad)
     rep.check(fb.d["unsafe_code_lint"] == "Forbid", "no-cache", "crate", "forbid-unsafe", "#![forbid(unsafe_code)] in force", "unsafe_code lint level is %s" % fb.d["unsafe_code_lint"])
+
+
+def _is_draw(t, src):
+    """t is a call of the key type's `randomized()` or of the `Default::default()` it is defined as
+    (`randomized` is `Self::default()`; the fresh-source rule decides what default() draws)"""
+    ty = src.rsplit("::", 1)[0]
+    return util.is_call(t, src) or util.is_call(t, "<%s as std::default::Default>::default" % ty)
 
 
 def _is_die(v):
